@@ -6,8 +6,9 @@ time give finite hedges and finite P&L on every path - in ordinary markets, in f
 derivative-bound pricing modules evaluated over the derivative's full simulated state
 (module.price() / module.delta() without arguments - what a listed hedge's pricer does) are NaN-free,
 and at the maturity column (and at every column of a flat market) the price equals the payoff that
-is then certain.  NOT decided: the stand-alone function clauses not reached by simulated state
-(limits of every delta at arbitrary arguments, rejection of negative arguments).
+is then certain.  also the deltas there equal their limiting values (derivative of the certain payoff).
+NOT decided: the stand-alone function clauses not reached by simulated state (arbitrary arguments,
+rejection of negative arguments).
 """
 import copy
 
@@ -30,7 +31,7 @@ ASSUMPTIONS = ["price at expiry compared with the certain payoff within 1e-6 (fl
                "terminal (resp. extreme) price is within 1e-6 relative of the strike are skipped for binaries",
                "stand-alone limit clauses of the property are not decided (partial claim)"]
 PROBES = ["flat_market", "shocked_far_from_strike", "maturity_price_is_payoff", "bs_hedger", "ww_hedger", "bound_price", "bound_delta",
-          "listed_hedge_pl", "put", "cost_positive", "large_dt", "tiny_dt"]
+          "listed_hedge_pl", "put", "cost_positive", "large_dt", "tiny_dt", "delta_limit_checked"]
 KINDS = ["EuropeanOption", "EuropeanBinaryOption", "AmericanBinaryOption", "LookbackOption"]
 
 
@@ -268,8 +269,39 @@ def _one_op(op, world, program, stats, hist, p0, dspecs, flat, pkind, dtv, shock
                         raise Violation(ID, "price_in_flat_market_not_payoff", "%s.price()" % type(m).__name__, {
                             "price": allc, "certain_payoff": ref, "derivative": sp}, seq)
                 stats.hazard((sp["kind"], sp["params"]["call"], pkind, regime, "price"))
-            elif regime != "ordinary":
-                stats.hazard((sp["kind"], sp["params"]["call"], pkind, regime, "delta"))
+            else:
+                # "deltas take their limiting values": where time to maturity or volatility is zero (maturity column, flat
+                # market, a stochastic variance sitting at 0) and the state is not on a kink of the payoff, the delta is the
+                # derivative of the payoff that is then certain
+                lm, ttm, vol = _state(d, spot)
+                mlm = _STATE_MAX[0]
+                degenerate = (ttm == 0) | (vol == 0)
+                K_ = sp["params"]["strike"]
+                call_ = sp["params"]["call"]
+                if sp["kind"] == "EuropeanOption":
+                    off_kink = lm.abs() > 1e-6
+                    lim = ((lm > 0).double() if call_ else -(lm < 0).double())
+                elif sp["kind"] == "EuropeanBinaryOption":
+                    off_kink = lm.abs() > 1e-6
+                    lim = torch.zeros_like(lm)
+                elif sp["kind"] == "AmericanBinaryOption":
+                    off_kink = (lm.abs() > 1e-6) | (mlm >= 0)
+                    lim = torch.zeros_like(lm)
+                else:  # LookbackOption: the certain payoff max(M - K, 0) does not move with the spot while S < M
+                    off_kink = (mlm - lm) > 1e-6
+                    lim = torch.zeros_like(lm)
+                sel = degenerate & off_kink
+                if bool(sel.any()):
+                    stats.probe("delta_limit_checked")
+                    stats.checks += 1
+                    tol_d = 1e-5 if spot.dtype == torch.float32 else 1e-10
+                    bad = sel & ~((out.double() - lim).abs() <= tol_d)
+                    if bool(bad.any()):
+                        cols = bad.any(dim=0).nonzero().flatten().tolist()
+                        raise Violation(ID, "delta_limit", "%s.delta()@%s" % (type(m).__name__, "zero_time" if cols == [T - 1] else "zero_volatility"),
+                                        {"delta": out.double()[bad][:8], "limit": lim[bad][:8], "columns": cols, "derivative": sp, "underlier": pkind}, seq)
+                if regime != "ordinary":
+                    stats.hazard((sp["kind"], sp["params"]["call"], pkind, regime, "delta"))
             hist.add(op="bound", method=op["method"], out=thash(out))
         elif name == "listed_pl":
             d, l = world.derivatives["d0"], world.derivatives["d1"]
